@@ -281,6 +281,15 @@ def f2(x0, step, n):
         acc = acc + y
     return acc
 
+def f4(x0, step, n):
+    tot = 0
+    for i in range(n):
+        x = x0 + i * step
+        y = x + 1
+        late = y * 2
+        tot = tot + late
+    return tot
+
 def f3(x0, step, n):
     acc = 0
     for i in range(n):
@@ -425,6 +434,12 @@ def build(case):
             elif which == "sibling_only":
                 sel_c, sel_u, fn = "f2(x, g(z~Q)) > y", "f2(x, g(z)) > y", ns["f2"]
                 keep = lambda ev: ("z" not in ev or Q(ev["z"]))  # noqa: E731
+            elif which == "late_first":  # a constrained variable that is not captured yet is listed before one that is
+                sel_c, sel_u, fn = "f4(late~Q, x~P) > y", "f4(late, x) > y", ns["f4"]
+                keep = lambda ev: ("late" not in ev or Q(ev["late"])) and P(ev["x"])  # noqa: E731
+            elif which == "late_first_eq":
+                sel_c, sel_u, fn = "f4(late=4, i=1) > y", "f4(late, i) > y", ns["f4"]
+                keep = lambda ev: ("late" not in ev or ev["late"] == 4) and ev["i"] == 1  # noqa: E731
             elif which == "chain_eq":
                 sel_c, sel_u, fn = "f3(x=5) > g(z~Q) > w", "f3(x) > g(z) > w", ns["f3"]
                 keep = lambda ev: ev["x"] == 5 and Q(ev["z"])  # noqa: E731
@@ -557,7 +572,7 @@ def cases(tier, seed):
         cs.append({"id": "z:symbolic_modulus", "kind": "zsmt",
                    "params": {"kind": "symbolic_modulus", "timeout_ms": 120000}})
     for which in ("eq", "pred", "focuspred", "sibling", "chain", "chain_eq", "nested_only", "nested_only_eq",
-                  "sibling_only"):
+                  "sibling_only", "late_first", "late_first_eq"):
         cs.append({"id": f"x:filter:{which}", "params": {"kind": "filter", "sel": which, "N": N},
                    "budget_s": 1500 if th else 240})
     cs.append({"id": "x:filter:pred:twin", "params": {"kind": "filter", "sel": "pred", "N": 2},
